@@ -568,10 +568,10 @@ Definition prog_masked_convolution : prog :=
 Example masked_convolution_ok : accepts prog_masked_convolution = true.
 Proof. vm_compute. reflexivity. Qed.
 
-(* branchings (9 DAG nodes, 9 as a tree):  Glob index [Pw astype [Glob convolve [Select (Pw copy [Pw astype [Img]]) (MaskE) (FalseC)]]] *)
+(* branchings (9 DAG nodes, 9 as a tree):  Glob index [Pw astype [Loc 1 convolve3x3 (Select (Pw copy [Pw astype [Img]]) (MaskE) (FalseC))]] *)
 Definition prog_branchings : prog :=
   ([],
-   (Glob 19 [(Pw 69 [(Glob 56 [(Select (Pw 2 [(Pw 69 [Img])]) MaskE FalseC)])])])).
+   (Glob 19 [(Pw 69 [(Loc 1 34 (Select (Pw 2 [(Pw 69 [Img])]) MaskE FalseC))])])).
 Example branchings_ok : accepts prog_branchings = true.
 Proof. vm_compute. reflexivity. Qed.
 
